@@ -86,7 +86,46 @@ def bounded(tier, seed):
         r = check_doc(doc, want, form)
         if r and len(failures) < 15:
             failures.append({'id': 'C05/' + label, 'what': r, 'input': {'kind': 'doc', 'label': label, 'seed': seed, 'tier': tier, 'form': form}})
-    return {'cases': cases, 'failures': failures, 'bound': 'reference-writer documents: every value kind x every listed spelling x versions x {text, bytes, dict, list of dicts}; rows missing/null/omitting columns'}
+    # the other routes into the JSON grid decoder with a pre-decoded object: never modify the caller's object
+    import hszinc
+    for label, call in entry_points():
+        cases += 1
+        obj = nested_doc()
+        before = copy.deepcopy(obj)
+        try:
+            r1 = call(obj)
+            same = json.dumps(obj, sort_keys=True) == json.dumps(before, sort_keys=True)
+            r2 = call(obj)
+            again = repr(_abs(r1)) == repr(_abs(r2))
+        except Exception as e:
+            failures.append({'id': 'C05/predecoded/' + label, 'what': 'raised %r' % (e,), 'input': {'kind': 'predecoded', 'label': label}})
+            continue
+        if not same or not again:
+            failures.append({'id': 'C05/predecoded/' + label, 'what': 'the caller\'s pre-decoded object was %s' % ('modified' if not same else 'decoded differently the second time'),
+                             'input': {'kind': 'predecoded', 'label': label}})
+    return {'cases': cases, 'failures': failures, 'bound': 'reference-writer documents: every value kind x every listed spelling x versions x {text, bytes, dict, list of dicts}; rows missing/null/omitting columns; pre-decoded nested grids through parse_scalar / parse_grid / parse'}
+
+
+def nested_doc():
+    inner = {'meta': {'ver': '3.0'}, 'cols': [{'name': 'x'}], 'rows': [{'x': 's:v'}]}
+    return {'meta': {'ver': '3.0'}, 'cols': [{'name': 'a'}, {'name': 'b'}], 'rows': [{'a': inner, 'b': [copy.deepcopy(inner), 'n:1']}, {'a': {'k': copy.deepcopy(inner)}}]}
+
+
+def entry_points():
+    import hszinc
+    return [('parse(dict)', lambda o: hszinc.parse(o, mode=hszinc.MODE_JSON)),
+            ('parse([dict])', lambda o: hszinc.parse([o], mode=hszinc.MODE_JSON)),
+            ('parse_grid(dict)', lambda o: hszinc.parser.parse_grid(o, mode=hszinc.MODE_JSON)),
+            ('parse_scalar(nested grid)', lambda o: hszinc.parse_scalar(o['rows'][0]['a'], mode=hszinc.MODE_JSON, version='3.0')),
+            ('parse_scalar(list holding a grid)', lambda o: hszinc.parse_scalar(o['rows'][0]['b'], mode=hszinc.MODE_JSON, version='3.0')),
+            ('parse_scalar(dict holding a grid)', lambda o: hszinc.parse_scalar(o['rows'][1]['a'], mode=hszinc.MODE_JSON, version='3.0'))]
+
+
+def _abs(v):
+    import hszinc
+    if isinstance(v, list):
+        return [_abs(x) for x in v]
+    return HV.abs_grid(v) if isinstance(v, hszinc.Grid) else HV.abs_value(v)
 
 
 def replay(inp):
@@ -97,6 +136,10 @@ def replay(inp):
                 r = check_doc(doc, want, inp.get('form', 'text'))
                 return {'reproduced': bool(r), 'detail': r or ''}
         return {'reproduced': None, 'detail': 'label not found'}
+    if inp.get('kind') == 'predecoded':
+        r = bounded('none', 0)
+        fl = [f for f in r['failures'] if f['id'].startswith('C05/predecoded/')]
+        return {'reproduced': bool(fl), 'detail': [f['what'] for f in fl[:3]]}
     if inp.get('kind') == 'json_scalar' and isinstance(inp.get('text'), str):
         ver = '3.0' if inp.get('ver3', True) else '2.0'
         try:
